@@ -750,13 +750,139 @@ static void m4_case(Tape &t)
 	if (stats.want_sample()) stats.sample(what + fmt(" => client error %d", c.error()));
 }
 
+// ------------------------------------------------------------- M5: undue version fallback
+// A client on its fallback retry announces a lower version together with TLS_FALLBACK_SCSV
+// (0x5600).  A server that supports a higher version must answer inappropriate_fallback and
+// nobody may become ready; when the announced version IS the server's highest, the handshake
+// completes (control).
+static void m5_case(Tape &t)
+{
+	static const uint16_t SUITES[] = { 0x002F, 0xC013, 0x0035, 0xC014, 0x000A };
+	uint16_t suite = SUITES[t.u8() % 5];
+	unsigned smax = 0x0301 + t.u8() % 3, cmax = 0x0301 + t.u8() % 3;
+	if (cmax > smax) std::swap(cmax, smax);
+	bool scsv_first = t.flag();
+	Profile cp, sp;
+	cp.suites = scsv_first ? std::vector<uint16_t>{ 0x5600, suite } : std::vector<uint16_t>{ suite, 0x5600 };
+	sp.suites = { suite };
+	cp.vmin = 0x0301; cp.vmax = cmax;
+	sp.vmin = 0x0301; sp.vmax = smax;
+	sp.key = keys_for(wt::suite_by_id(suite))[0];
+	BearClient c(cp);
+	BearServer s(sp);
+	VF_CHECK(c.reset() && s.reset(), "harness: reset");
+	Session S(&c, &s);
+	S.script[0].push_back(Item{ IT_WRITE, 20, true });
+	S.script[1].push_back(Item{ IT_WRITE, 20, true });
+	S.run(400000);
+	std::string what = fmt("client announcing TLS %s with TLS_FALLBACK_SCSV, server supporting up to TLS %s (suite %04x)", ver_name(cmax), ver_name(smax), suite);
+	if (cmax == smax) {
+		VF_CHECK(S.ever_ready[0] && S.ever_ready[1] && S.recvd[0] == 20 && S.recvd[1] == 20, "%s: not a fallback, yet the handshake failed (errors %d/%d)", what.c_str(), c.error(), s.error());
+		stats.cls("M5/control");
+	} else {
+		VF_CHECK(!S.ever_ready[0] && !S.ever_ready[1], "%s: the handshake completed at TLS %s: undue version fallback accepted", what.c_str(), ver_name(br_ssl_engine_get_version(s.eng)));
+		VF_CHECK(S.recvd[0] == 0 && S.recvd[1] == 0, "%s: application data was delivered", what.c_str());
+		VF_CHECK(s.closed() && s.error() == BR_ERR_SEND_FATAL_ALERT + 86, "%s: server error %d, expected the inappropriate_fallback alert (%d)", what.c_str(), s.error(), BR_ERR_SEND_FATAL_ALERT + 86);
+		VF_CHECK(c.closed() && c.error() != 0, "%s: the client did not fail", what.c_str());
+		stats.cls("M5/refused");
+	}
+	stats.eval(what + (scsv_first ? "/first" : "/last"));
+}
+
+// ------------------------------------------------------------- M3b: static ECDH client authentication without the key
+// The server asks for a client certificate on an ECDH_* suite; its validator (instrumented)
+// accepts the chain and returns the certified EC key.  The client has no private key at all: it
+// announces static-ECDH authentication and supplies a premaster secret of its own choosing (bytes
+// of the certified public point).  The certified key may be on the server's curve or on another
+// one ("wrong-curve substitution").  The server must never become ready.
+struct NoKeyCert {
+	const br_ssl_client_certificate_class *vt;
+	Bytes premaster;
+};
+static void nk_start_name_list(const br_ssl_client_certificate_class **) {}
+static void nk_start_name(const br_ssl_client_certificate_class **, size_t) {}
+static void nk_append_name(const br_ssl_client_certificate_class **, const unsigned char *, size_t) {}
+static void nk_end_name(const br_ssl_client_certificate_class **) {}
+static void nk_end_name_list(const br_ssl_client_certificate_class **) {}
+static void nk_choose(const br_ssl_client_certificate_class **, const br_ssl_client_context *, uint32_t, br_ssl_client_certificate *ch)
+{
+	ch->auth_type = BR_AUTH_ECDH;
+	ch->hash_id = -1;
+	ch->chain = FX_EC_CHAIN;
+	ch->chain_len = FX_EC_CHAIN_LEN;
+}
+static uint32_t nk_do_keyx(const br_ssl_client_certificate_class **pctx, unsigned char *data, size_t *len)
+{
+	NoKeyCert *n = (NoKeyCert *)pctx;
+	memcpy(data, n->premaster.data(), n->premaster.size());
+	*len = n->premaster.size();
+	return 1;
+}
+static size_t nk_do_sign(const br_ssl_client_certificate_class **, int, size_t, unsigned char *, size_t) { return 0; }
+static const br_ssl_client_certificate_class NK_VT = { sizeof(NoKeyCert), nk_start_name_list, nk_start_name, nk_append_name, nk_end_name, nk_end_name_list, nk_choose, nk_do_keyx, nk_do_sign };
+
+static void m3b_case(Tape &t)
+{
+	static const uint16_t SUITES[] = { 0xC004, 0xC005, 0xC025, 0xC02D, 0xC00E, 0xC029, 0xC031 };
+	uint16_t suite = SUITES[t.u8() % 7];
+	const wt::SuiteInfo *si = wt::suite_by_id(suite);
+	unsigned ver = si->tls12_only ? 0x0303 : 0x0301 + t.u8() % 3;
+	Profile cp, sp;
+	cp.suites = { suite }; sp.suites = { suite };
+	cp.vmin = cp.vmax = sp.vmin = sp.vmax = ver;
+	sp.key = keys_for(si)[0];
+	sp.client_auth = true;
+	// the key the server-side validator returns for the client's chain
+	unsigned kc = t.u8() % 4;   // 0: a P-256 key the client does not hold; 1: P-384; 2: P-521; 3: P-256 with odd point length
+	static const size_t QL[] = { 65, 97, 133, 64 };
+	static const int CV[] = { BR_EC_secp256r1, BR_EC_secp384r1, BR_EC_secp521r1, BR_EC_secp256r1 };
+	LeafKey other = leaf_key(FX_EC_CHAIN[1]);   // a real P-256 point whose private key nobody here holds
+	Bytes q(QL[kc], 0);
+	q[0] = 0x04;
+	if (kc == 0) q = other.a; else t.fill(q.data() + 1, q.size() - 1);
+	SpyX509 spy;
+	spy.vt = &SPY_VT;
+	spy.verdict = 0;
+	spy.usages = BR_KEYTYPE_KEYX | BR_KEYTYPE_SIGN;
+	memset(&spy.key, 0, sizeof spy.key);
+	spy.key.key_type = BR_KEYTYPE_EC;
+	spy.key.key.ec.curve = CV[kc];
+	spy.key.key.ec.q = q.data(); spy.key.key.ec.qlen = q.size();
+	BearClient c(cp);
+	BearServer s(sp, &spy.vt);
+	NoKeyCert nk;
+	nk.vt = &NK_VT;
+	// what a failed multiplication would leave behind (bytes of the point), or another guess
+	unsigned guess = t.u8() % 3;
+	size_t xl = 32;
+	if (guess == 0) nk.premaster.assign(q.begin() + 1, q.begin() + 1 + std::min<size_t>(xl, q.size() - 1));
+	else if (guess == 1) nk.premaster.assign(xl, 0);
+	else { nk.premaster.resize(xl); t.fill(nk.premaster.data(), xl); }
+	br_ssl_client_set_client_certificate(c.sc.get(), &nk.vt);
+	VF_CHECK(c.reset() && s.reset(), "harness: reset");
+	Session S(&c, &s);
+	S.script[0].push_back(Item{ IT_WRITE, 20, true });
+	S.script[1].push_back(Item{ IT_WRITE, 20, true });
+	S.run(400000);
+	Bytes sink;
+	if (!(S.ever_ready[0] && S.ever_ready[1])) { if (!c.closed()) bear_transport_eof(&c, &sink); if (!s.closed()) bear_transport_eof(&s, &sink); }
+	std::string what = fmt("%s TLS%s: client without any private key claims static-ECDH authentication; the server's validator returns a %s key (%zu-byte point); premaster guess %s", si->name, ver_name(ver),
+		kc == 1 ? "P-384" : kc == 2 ? "P-521" : "P-256", q.size(), guess == 0 ? "= leading bytes of that point" : guess == 1 ? "all zero" : "random");
+	VF_CHECK(!S.ever_ready[1], "%s: the server became ready for application data: the peer never proved possession of the certified key", what.c_str());
+	VF_CHECK(S.recvd[0] == 0 && S.recvd[1] == 0, "%s: application data was delivered", what.c_str());
+	VF_CHECK(s.closed() && s.error() != 0, "%s: the server did not fail (error %d)", what.c_str(), s.error());
+	stats.cls(fmt("M3b/%s", spy.n_end_chain ? "validator-consulted" : "stopped-earlier"));
+	stats.eval(what);
+	if (stats.want_sample()) stats.sample(what + fmt(" => server error %d", s.error()));
+}
+
 // ------------------------------------------------------------- entry points
 void target_run(Tape &t)
 {
 	unsigned m = t.u8();
 	if (m == 0xF0) { unsigned k = t.u8() % NKINDS; int dir = t.u8() & 1; size_t rec = t.u8(); size_t off = t.u16(); uint8_t mask = t.u8(); unsigned cm = t.u8(); m0_case(k, dir, rec, off, mask, cm); return; }
 	if (m == 0xF1) { unsigned k = t.u8() % NKINDS; int dir = t.u8() & 1; unsigned edit = t.u8() % E_NEDITS; size_t mi = t.u8(); unsigned aux = t.u8(); unsigned cm = t.u8(); m1_case(k, dir, edit, mi, aux, cm); return; }
-	switch (m % 9) {
+	switch (m % 11) {
 	case 0: case 1: {
 		unsigned k = t.u8() % NKINDS;
 		int dir = t.u8() & 1;
@@ -775,6 +901,8 @@ void target_run(Tape &t)
 	case 4: m2_suite_case(t); break;
 	case 5: m2_version_case(t); break;
 	case 6: m4_case(t); break;
+	case 7: m5_case(t); break;
+	case 8: m3b_case(t); break;
 	default: m3_case(t); break;
 	}
 }
